@@ -589,14 +589,11 @@ func c15AsyncRegistration(c *Ctx) {
 			})
 			ok = done != nil && deferred
 			if done != nil && !deferred {
-				ok = true
-				for _, b := range g.Blocks {
-					if _, isRet := b.Instrs[len(b.Instrs)-1].(*ssa.Return); isRet && b.Comment != "recover" {
-						if !(done.Block() == b || done.Block().Dominates(b)) {
-							ok = false
-						}
-					}
-				}
+				// every path from the entry to a return passes a Done call (one call dominating the exits, or one per exit)
+				ok, _ = allPathsPass(g, func(o ssa.Instruction) bool {
+					_, isDefer := o.(*ssa.Defer)
+					return !isDefer && isCallTo(c, o, Call("sync.WaitGroup).Done", FieldT("sync.WaitGroup", Any())))
+				})
 			}
 			c.Check(ok, "C15.Q2b-async-registration", f.Name+" › registered goroutine releases asyncWG", goi.Pos(),
 				"asyncWG.Done is executed on every exit of the goroutine registered with asyncWG.Add", "an exit of the registered goroutine skips asyncWG.Done: Close waits forever")
